@@ -294,7 +294,7 @@ func c07OpenCancel(kind, at string, other int, ctxk string) cwScenario {
 		c = 1
 	}
 	open := Step{Op: "open", Kind: kind, At: at, Ctx: ctxk}
-	if at == "after-write-deadline" {
+	if at == "after-write-deadline" || at == "blocked-deadline" {
 		open.D = 800
 	}
 	steps = append(steps, open, Step{Op: "drain"}, Step{Op: "recv", C: c}, Step{Op: "send", C: c, B: 40}, Step{Op: "drain"})
@@ -510,13 +510,50 @@ func c07ScaleBlockedScenarios(full bool) []cwScenario {
 	return out
 }
 
+// c07ResetWriteSlow: as c07Scenario with an explicit cancel, but the client's transport takes no Write for d ms of
+// virtual time after the cancellation (d below the reset Write's 30 s bound: 300 ms, 1 s, 5 s, 29.9 s) and is then
+// released: the reset must still reach the wire and the handler's context end. For the model a plain cancellation.
+func c07ResetWriteSlow(bt baseTrace, p int, other int, d int64) cwScenario {
+	sc := c07Scenario(bt, p, false, other)
+	for i, st := range sc.Steps {
+		if st.Op == "cancel" {
+			sc.Steps[i] = Step{Op: "cancelblk", C: st.C, D: d}
+			break
+		}
+	}
+	sc.Tags = append(sc.Tags, fmt.Sprintf("reset-write-held-ms:%d", d))
+	return sc
+}
+
+func c07ResetWriteSlowScenarios(full bool) []cwScenario {
+	var out []cwScenario
+	ds := []int64{300, 1000, 5000, 29900}
+	for ti, bt := range c07BaseTraces() {
+		if strings.Contains(bt.Name, "pingpong") {
+			// a RecvMsg PENDING at the cancellation: the stream loop's teardown holds the stream's mutex across the reset
+			// Write, the woken RecvMsg waits for that mutex (readErrorIfDone) until the Write has finished or given up
+			// (<= 30 s: bounded, see notes-cw "observation, round 8"); a goroutine waiting for a mutex stops the bubble's
+			// virtual clock, so the hold cannot be played here (the watchdog reports a wedge that real time would resolve)
+			continue
+		}
+		n := len(bt.Steps(0))
+		for p := 0; p <= n; p++ {
+			if !full && p != 0 && p != n/2 && p != n {
+				continue
+			}
+			out = append(out, c07ResetWriteSlow(bt, p, (ti+p)%3, ds[(ti+p)%len(ds)]))
+		}
+	}
+	return out
+}
+
 func c07OpenCancelScenarios() []cwScenario {
 	var out []cwScenario
 	for _, kind := range []string{"Bidi", "CStream", "SStream"} {
-		for _, at := range []string{"after-write", "after-write-deadline", "blocked"} {
+		for _, at := range []string{"after-write", "after-write-deadline", "blocked", "blocked-deadline"} {
 			for other := 0; other <= 2; other++ {
 				for _, ctxk := range []string{"cancel", "cause", "parent"} {
-					if at == "after-write-deadline" && ctxk == "parent" {
+					if (at == "after-write-deadline" || at == "blocked-deadline") && ctxk == "parent" {
 						ctxk = "timeoutcause"
 					}
 					out = append(out, c07OpenCancel(kind, at, other, ctxk))
@@ -776,6 +813,53 @@ func c11HalfCloseParked(kind string, n, k, others int, probeDl bool, retCode int
 		fmt.Sprintf("n:%d", n), fmt.Sprintf("k:%d", k), fmt.Sprintf("others:%d", others), fmt.Sprintf("probe-deadline:%v", probeDl)}}
 }
 
+// c11UnarySurplus: a peer that answers ONE unary call n times (2..5), the replies handed to the client's transport in
+// one burst (before the caller has returned: reply 1 is taken, reply 2 fills the call's slot, the read loop offers
+// reply 3) and, optionally, one more after the caller has returned; then a probe unary call and a stream.
+func c11UnarySurplus(n int, late bool, probeDl bool) cwScenario {
+	s := []Step{{Op: "unary", B: 60}, {Op: "peer", Env: replyEnv(0, 60), B: int64(n)}}
+	if late {
+		s = append(s, Step{Op: "peer", Env: replyEnv(0, 60)})
+	}
+	p := Step{Op: "unary", B: 77}
+	if probeDl {
+		p.D = 1000
+	}
+	s = append(s, p, Step{Op: "peer", Env: replyEnv(1, 77)})
+	if probeDl {
+		s = append(s, Step{Op: "tick", D: 1000})
+	}
+	s = append(s, Step{Op: "open", Kind: "Bidi"}, Step{Op: "send", C: 2, B: 10}, Step{Op: "peer", Env: bodyEnv(2, 20)}, Step{Op: "recv", C: 2},
+		Step{Op: "peer", Env: trlEnv(2, 0)}, Step{Op: "recv", C: 2})
+	return cwScenario{Mode: "client", Steps: s, Tags: []string{"c11", "abandon:peer-oversends", "shape:unary-surplus-burst", fmt.Sprintf("replies:%d", n),
+		fmt.Sprintf("one-more-later:%v", late), fmt.Sprintf("probe-deadline:%v", probeDl)}}
+}
+
+// c11DeadlineFreesLoop: a streaming call WITH a deadline whose handler stopped consuming (k read) and does not return;
+// the caller has sent k+extra messages (extra >= 2: one fills the stream's queue, the next parks the server's read loop
+// under the registry lock); then the deadline passes: the hold must end at the server's OWN timer (the handler's context
+// carries the GRPC-Timeout); a probe completes, the other calls finish.
+func c11DeadlineFreesLoop(kind string, k, extra, others int, closeToo bool) cwScenario {
+	pre, post, c := c11Others(others)
+	s := append([]Step{}, pre...)
+	s = append(s, Step{Op: "open", Kind: kind, D: 3000, Ctx: ctxKindFor(true, k+extra+others)}, Step{Op: "c2s"})
+	for i := 0; i < k; i++ {
+		s = append(s, Step{Op: "send", C: c, B: int64(10 + i)}, Step{Op: "c2s"}, hop(c, HOp{Op: "recv"}))
+	}
+	for i := 0; i < extra; i++ {
+		s = append(s, Step{Op: "send", C: c, B: int64((20 + i) * (i % 2))})
+	}
+	if closeToo {
+		s = append(s, Step{Op: "closesend", C: c})
+	}
+	s = append(s, Step{Op: "drain"}, Step{Op: "tick", D: 3000}, Step{Op: "drain"})
+	s = append(s, probeSteps(false)...)
+	s = append(s, hop(c, HOp{Op: "return", Ctx: true}), Step{Op: "drain"}, Step{Op: "recv", C: c})
+	s = append(s, post...)
+	return cwScenario{Mode: "e2e", Steps: s, Tags: []string{"c11", "abandon:handler-stops-consuming", "hold-ends-at:handler-deadline", "kind:" + kind,
+		fmt.Sprintf("read:%d", k), fmt.Sprintf("unread:%d", extra), fmt.Sprintf("others:%d", others), fmt.Sprintf("half-close:%v", closeToo)}}
+}
+
 // a peer that sends more than expected (client against a scripted peer)
 func c11OverSending(shape string, d int, probeDl bool) cwScenario {
 	var s []Step
@@ -945,6 +1029,24 @@ func c11Scenarios(full bool) []cwScenario {
 						continue
 					}
 					out = append(out, c11TrailerBlocked(kind, how, ex, others, (ki+others+ex)%4 == 0))
+				}
+			}
+		}
+	}
+	// surplus replies to one unary call in a burst; a hold of the server's read loop that ends at the handler's deadline
+	for n := 2; n <= 5; n++ {
+		for l := 0; l < 2; l++ {
+			out = append(out, c11UnarySurplus(n, l == 1, (n+l)%2 == 0))
+		}
+	}
+	for ki, kind := range []string{"Bidi", "CStream"} {
+		for k := 0; k <= 1; k++ {
+			for extra := 2; extra <= 3; extra++ {
+				for others := 0; others <= 2; others++ {
+					if !full && (ki+k+extra+others)%2 == 1 {
+						continue
+					}
+					out = append(out, c11DeadlineFreesLoop(kind, k, extra, others, (k+extra+others)%2 == 0))
 				}
 			}
 		}
